@@ -14,7 +14,7 @@
    file: [xdb] = (block database, state database), [xstep] a write step of one of the two,
    [Covered K d]: every height the block store retains resolves in the state store. *)
 From Coq Require Import List ZArith Bool Lia.
-From TM Require Import Generated.Consts C18.Model C18.Proofs.
+From TM Require Import Generated.Consts C18.Model C18.Proofs C18.ProofsShape C18.ProofsNode.
 Import ListNotations.
 Open Scope Z_scope.
 
@@ -390,3 +390,205 @@ Example C18_swapped_order_refuted_by_error :
    xaudit 4 (xreplay steps (snd ex_x5)) = (1, 1)) /\
   composite_prune 4 2 (fst ex_x5) (fst (snd ex_x5)) (snd (snd ex_x5)) 6 = (2, fst ex_x5, []).
 Proof. vm_compute. repeat split; reflexivity. Qed.
+
+(* ------------------------------------------------------------------ every history of Save calls has the shape
+
+   ProofsShape.v.  The callers of the state store: [genesis_state st] (state/state.go
+   MakeGenesisState, consensus/replay.go after InitChain: LastBlockHeight 0, both LastHeight...
+   Changed = InitialHeight >= 1, NextValidators = Validators up to priorities) and
+   [successor st st'] (state/execution.go updateState for the block of height [nh st], the height
+   save() calls nextHeight: LastBlockHeight' = nh st, Validators' = NextValidators, a validator
+   change sets LastHeightValidatorsChanged' = nh st + 2 with ANY new set, a parameter change sets
+   LastHeightConsensusParamsChanged' = nh st + 1 with ANY new parameters, otherwise both fields
+   and values are carried over - at no, some or every height).
+
+   [SReach K B hist st lo d]: the database d is reached by
+     - the genesis Save on ANY database d0 (whatever an earlier crashed start left behind),
+     - Save(st') of a successor of the last completed Save, completed or cut by a crash after
+       ANY number of its database writes (the re-execution after the restart may produce a
+       different successor),
+     - SaveABCIResponses of any height, completed or cut,
+     - PruneStates(from, to) with lo <= from < to <= nh st - as consensus calls it: from = the
+       block store's base (never below an earlier retain height), to = the retain height (at most
+       the block store's height) - completed, failed inside its loop, or cut by a crash after any
+       number of its batches; and any refused call;
+   for EVERY checkpoint interval K > 0 (valSetCheckpointInterval is one value of it) and every
+   batch size B.  [hist] lists the states of the completed Saves, [st] the last of them, [lo] the
+   retain height of the last PruneStates that may have written. *)
+
+(* (1) the database then has the shape the composite-prune theorems assume, for every from / to
+   the next PruneStates may be called with *)
+Theorem C18_save_history_has_shape :
+  forall K B hist st lo d, 0 < K -> SReach K B hist st lo d ->
+    exists L Lp, forall from to, lo <= from -> lo <= to <= nh st -> StateShape K L Lp d from to (nh st).
+Proof. exact save_history_has_shape. Qed.
+Print Assumptions C18_save_history_has_shape.
+
+(* (3) ... and LoadValidators resolves for every height of [lo, nh st + 1], LoadConsensusParams
+   (to non-empty parameters) for every height of [lo, nh st], and they return exactly what the
+   completed Save calls recorded for those heights - through the LastHeightChanged pointers, the
+   checkpoints and the records PruneStates kept *)
+Theorem C18_save_history_resolves :
+  forall K B hist st lo d, 0 < K -> SReach K B hist st lo d ->
+    (forall h, lo <= h <= nh st + 1 -> load_validators K d h <> None) /\
+    (forall h, lo <= h <= nh st -> exists p, load_consensus_params d h = Some (Some p)) /\
+    forall s, In s hist ->
+      (lo <= nh s -> load_validators K d (nh s) = Some (s_vals s) /\
+                     load_consensus_params d (nh s) = Some (Some (s_params s))) /\
+      (lo <= nh s + 1 -> load_validators K d (nh s + 1) = Some (s_next_vals s)).
+Proof. exact save_history_resolves. Qed.
+Print Assumptions C18_save_history_resolves.
+
+(* the completed Saves cover every height from the initial one (so the previous theorem speaks
+   about every height of [lo, nh st + 1]) *)
+Theorem C18_save_history_covers :
+  forall K B hist st lo d, SReach K B hist st lo d ->
+    1 <= s_initial st /\ s_initial st <= lo <= nh st /\
+    forall h, s_initial st <= h <= nh st -> exists s, In s hist /\ nh s = h.
+Proof. exact save_history_covers. Qed.
+Print Assumptions C18_save_history_covers.
+
+(* non-vacuity: checkpoint interval 4, batch size 2, initial height 3, a database that already
+   holds a stale record; validators change in block 3 (in force from 5) and in block 7 (from 9),
+   parameters in block 4 (from 5); a Save cut after its first write and re-executed; a
+   PruneStates(3, 6) cut after its first batch, then PruneStates(6, 7) completed; two more
+   blocks.  The resulting database resolves 7..10 (validators) / 7..9 (parameters) to the saved
+   values although the records of height 7 and 8 point below the retain height (to the
+   last-changed records 5, kept by the prune); the heights 4 (stale record included) and 6 are
+   gone, the record of height 3 is left behind by the crashed prune (the later call starts at 6). *)
+Definition hst (last vals nvals lhvc params lhpc : Z) : sstate :=
+  {| s_last := last; s_initial := 3; s_vals := vals; s_next_vals := nvals; s_lhvc := lhvc;
+     s_params := params; s_lhpc := lhpc |}.
+
+Example C18_save_history_nonvacuous :
+  exists hist st d,
+    SReach 4 2 hist st 7 d /\ length hist = 7%nat /\ nh st = 9 /\
+    map (load_validators 4 d) [6; 7; 8; 9; 10] = [None; Some 2; Some 2; Some 3; Some 3] /\
+    map (load_consensus_params d) [6; 7; 8; 9] = [None; Some (Some 9); Some (Some 9); Some (Some 9)] /\
+    load_vals_info d 7 = Some (5, None) /\ load_vals_info d 5 = Some (5, Some 2) /\
+    load_vals_info d 3 = Some (3, Some 1) /\ load_vals_info d 4 = None /\ load_vals_info d 6 = None /\
+    load_params_info d 7 = Some (5, None) /\ load_params_info d 5 = Some (5, Some 9).
+Proof.
+  assert (Hg : genesis_state (hst 0 1 1 3 8 3)) by (unfold genesis_state; cbn; repeat split; lia).
+  pose proof (SR_genesis 4 2 _ [(SKVals 4, SVVals 99 None)] Hg) as R0.
+  assert (S1 : successor (hst 0 1 1 3 8 3) (hst 3 1 2 5 8 3)) by (unfold successor, nh; cbn; repeat split; auto).
+  pose proof (SR_save 4 2 _ _ _ _ _ R0 S1) as R1.
+  assert (S2 : successor (hst 3 1 2 5 8 3) (hst 4 2 2 5 9 5)) by (unfold successor, nh; cbn; repeat split; auto).
+  pose proof (SR_save 4 2 _ _ _ _ _ R1 S2) as R2.
+  assert (S3 : successor (hst 4 2 2 5 9 5) (hst 5 2 2 5 9 5)) by (unfold successor, nh; cbn; repeat split; auto).
+  pose proof (SR_save_crash 4 2 _ _ _ _ _ 1%nat R2 S3) as R2c.
+  pose proof (SR_save 4 2 _ _ _ _ _ R2c S3) as R3.
+  assert (S4 : successor (hst 5 2 2 5 9 5) (hst 6 2 2 5 9 5)) by (unfold successor, nh; cbn; repeat split; auto).
+  pose proof (SR_save 4 2 _ _ _ _ _ R3 S4) as R4.
+  pose proof (SR_prune' 4 2 _ _ _ _ 3 6 1%nat R4 ltac:(cbn; lia) ltac:(lia) ltac:(cbn; lia)) as R5.
+  pose proof (SR_prune' 4 2 _ _ _ _ 6 7 5%nat R5 ltac:(lia) ltac:(lia) ltac:(cbn; lia)) as R6.
+  assert (S5 : successor (hst 6 2 2 5 9 5) (hst 7 2 3 9 9 5)) by (unfold successor, nh; cbn; repeat split; auto).
+  pose proof (SR_save 4 2 _ _ _ _ _ R6 S5) as R7.
+  assert (S6 : successor (hst 7 2 3 9 9 5) (hst 8 3 3 9 9 5)) by (unfold successor, nh; cbn; repeat split; auto).
+  pose proof (SR_save 4 2 _ _ _ _ _ R7 S6) as R8.
+  eexists. eexists. eexists. split; [exact R8|]. vm_compute. repeat split; reflexivity.
+Qed.
+
+(* ------------------------------------------------------------------ the stores a node reaches (ProofsNode.v)
+
+   [XReach K B hist st m bd sd]: the two databases as consensus drives them - the genesis Save
+   (block store empty); per block SaveBlock (the block of height nh st whose header carries the
+   hashes of the current validators and parameters - state/validation.go validateBlock - under
+   the obligations [save_ok] of the block-store theorems), SaveABCIResponses, Save(successor);
+   pruneBlocks(retain) for ANY retain value when the block store is level with the state - each of
+   these completed or cut by a crash after ANY number of its database writes, both stores
+   re-opened, a cut SaveBlock followed by a SaveBlock of a possibly different block, a cut
+   ApplyBlock by its re-execution. *)
+
+(* (2) the composite-prune theorems without the StateShape hypothesis: on every reachable store,
+   after a crash at ANY write step of either half of pruneBlocks(retain), after an error return of
+   either half and after completion, the block store's base has only moved up, its height is
+   unchanged, and every height from the (new) base to height + 1 resolves in the state store -
+   validators, consensus parameters, ABCI responses - exactly as before the call *)
+Theorem C18_composite_prune_keeps_state_records_reachable :
+  forall K B hist st m bd sd retain code m' steps,
+    0 < K -> XReach K B hist st m bd sd -> m_height m = s_last st ->
+    composite_prune K B m bd sd retain = (code, m', steps) ->
+    forall n,
+      m_base m <= m_base (load_state (fst (xreplay (firstn n steps) (bd, sd)))) /\
+      m_height (load_state (fst (xreplay (firstn n steps) (bd, sd)))) = m_height m /\
+      forall h, m_base (load_state (fst (xreplay (firstn n steps) (bd, sd)))) <= h <= m_height m + 1 ->
+        load_validators K (snd (xreplay (firstn n steps) (bd, sd))) h = load_validators K sd h /\
+        load_consensus_params (snd (xreplay (firstn n steps) (bd, sd))) h = load_consensus_params sd h /\
+        load_abci (snd (xreplay (firstn n steps) (bd, sd))) h = load_abci sd h.
+Proof. exact composite_prune_prefix_reachable. Qed.
+Print Assumptions C18_composite_prune_keeps_state_records_reachable.
+
+(* ... and [Covered] is no longer a hypothesis either: on every reachable store holding at least
+   one block, after every prefix of the composite's write steps every block the block store
+   retains has its state-store records *)
+Theorem C18_composite_prune_crash_safe_reachable :
+  forall K B hist st m bd sd retain code m' steps,
+    0 < K -> XReach K B hist st m bd sd -> m_height m = s_last st -> 1 <= m_height m ->
+    composite_prune K B m bd sd retain = (code, m', steps) ->
+    forall n, Covered K (xreplay (firstn n steps) (bd, sd)).
+Proof. exact composite_prune_covered_reachable. Qed.
+Print Assumptions C18_composite_prune_crash_safe_reachable.
+
+(* the invariant behind it: every reachable store has a consistent block store whose memory state
+   is the persisted one ... *)
+Theorem C18_reachable_block_store_consistent :
+  forall K B hist st m bd sd, 0 < K -> XReach K B hist st m bd sd ->
+    audit bd = (0, 0) /\ m = load_state bd.
+Proof.
+  intros K B hist st m bd sd HK R. destruct (xreach_inv K B hist st m bd sd HK R) as ((E & C) & _).
+  split; [apply audit_spec; exact C|exact E].
+Qed.
+Print Assumptions C18_reachable_block_store_consistent.
+
+(* ... and passes the cross-store audit whenever the block store is level with the state (i.e.
+   everywhere except between SaveBlock and the end of ApplyBlock): for every retained block the
+   validator set and the consensus parameters the state store resolves are the ones the block
+   header names, its ABCI responses are present, the validators of height + 1 load (clauses
+   30/31 of the monitor, which [xaudit] evaluates on the implementation's journal) *)
+Theorem C18_reachable_cross_audit :
+  forall K B hist st m bd sd, 0 < K ->
+    XReach K B hist st m bd sd -> m_height m = s_last st -> xaudit K (bd, sd) = (0, 0).
+Proof. exact xreach_xaudit. Qed.
+Print Assumptions C18_reachable_cross_audit.
+
+(* non-vacuity: the store of the composite examples above ([ex_x5]: five blocks from height 1,
+   checkpoint interval 4, parameters changed by block 1, validators by block 2) is reachable, so is
+   what a pruneBlocks(5) cut after 7 of its 9 write steps (in the middle of the state half)
+   leaves, and one more block can be stored on top of that *)
+Ltac succ_tac := unfold successor, nh; cbn; repeat split; auto.
+
+Example C18_reachable_nonvacuous :
+  exists hist st,
+    XReach 4 2 hist st (fst ex_x5) (fst (snd ex_x5)) (snd (snd ex_x5)) /\
+    m_height (fst ex_x5) = s_last st /\ length hist = 6%nat /\
+    let steps := snd (composite_prune 4 2 (fst ex_x5) (fst (snd ex_x5)) (snd (snd ex_x5)) 5) in
+    let d' := xreplay (firstn 7 steps) (snd ex_x5) in
+    XReach 4 2 hist st (load_state (fst d')) (fst d') (snd d') /\
+    load_state (fst d') = {| m_base := 5; m_height := 5 |} /\
+    load_vals_info (snd d') 3 = None /\ load_vals_info (snd d') 1 = Some (1, Some 1) /\
+    xaudit 4 d' = (0, 0).
+Proof.
+  assert (HK : 0 < 4) by lia.
+  assert (Hg : genesis_state (xst 0 1 1 1 8 1)) by (unfold genesis_state; cbn; repeat split; lia).
+  pose proof (XR_genesis 4 2 _ [] Hg) as R0.
+  pose proof (XR_full_block' 4 2 _ _ (xst 1 1 1 1 9 2) _ _ _ (xblk 1 11 1 8 (cm (-1) 0)) (cm 11 1) HK R0
+                eq_refl eq_refl eq_refl eq_refl ltac:(vm_compute; reflexivity) ltac:(succ_tac)) as R1.
+  vm_compute in R1.
+  pose proof (XR_full_block' 4 2 _ _ (xst 2 1 2 4 9 2) _ _ _ (xblk 2 12 1 9 (cm 11 2)) (cm 12 3) HK R1
+                eq_refl eq_refl eq_refl eq_refl ltac:(vm_compute; reflexivity) ltac:(succ_tac)) as R2.
+  vm_compute in R2.
+  pose proof (XR_full_block' 4 2 _ _ (xst 3 2 2 4 9 2) _ _ _ (xblk 3 13 1 9 (cm 12 4)) (cm 13 5) HK R2
+                eq_refl eq_refl eq_refl eq_refl ltac:(vm_compute; reflexivity) ltac:(succ_tac)) as R3.
+  vm_compute in R3.
+  pose proof (XR_full_block' 4 2 _ _ (xst 4 2 2 4 9 2) _ _ _ (xblk 4 14 2 9 (cm 13 6)) (cm 14 7) HK R3
+                eq_refl eq_refl eq_refl eq_refl ltac:(vm_compute; reflexivity) ltac:(succ_tac)) as R4.
+  vm_compute in R4.
+  pose proof (XR_full_block' 4 2 _ _ (xst 5 2 2 4 9 2) _ _ _ (xblk 5 15 2 9 (cm 14 8)) (cm 15 9) HK R4
+                eq_refl eq_refl eq_refl eq_refl ltac:(vm_compute; reflexivity) ltac:(succ_tac)) as R5.
+  vm_compute in R5.
+  eexists. eexists. split; [exact R5|]. split; [reflexivity|]. split; [reflexivity|].
+  cbv zeta. split.
+  - apply (XR_prune' 4 2 _ _ _ _ _ 5 7 R5). reflexivity.
+  - vm_compute. repeat split; reflexivity.
+Qed.
